@@ -188,14 +188,16 @@ inline int explore(const Options& o) {
                     dst = (int)seen.size(); seen[x.canon] = dst; isnew = true;
                 } else dst = it->second;
                 ntrans++;
+                if (isnew) {
+                    std::string intro;
+                    if (o.introspect) { Exec y = run_history(h, o, true); intro = y.intro; }
+                    *out << "S\t" << dst << "\t" << x.canon << "\t" << intro << "\n";
+                }
                 std::string rawtape = tape_raw(x.choices);
                 *out << "X\t" << src << "\t" << op.first << ":" << op.second << "\t" << tape_str(x.choices) << "\t" << rawtape << "\t"
                      << (x.trace.empty() ? "-" : x.trace) << "\t" << x.ret << "\t" << dst << "\t"
                      << (x.escaped ? "ESC:" + x.escaped_what : "-") << "\t" << (x.ledger_error ? x.ledger_msg : "-") << "\t" << x.rawseq << "\n";
                 if (isnew) {
-                    std::string intro;
-                    if (o.introspect) { Exec y = run_history(h, o, true); intro = y.intro; }
-                    *out << "S\t" << dst << "\t" << x.canon << "\t" << intro << "\n";
                     // normalise the stored history: full tape of the chosen alternatives
                     History hh = nd.hist; std::vector<int> full; for (auto& c : x.choices) full.push_back(c.chosen);
                     hh.push_back(Step{op.first, op.second, full});
